@@ -442,7 +442,8 @@ func (res *Resource) Purge(keepExtra int) { //nolint:gocognit
 	}
 
 	// Search for purge boundary.
-	var purgeBoundary int
+	purgeBoundary := len(res.Versions)
+	var keptExtra int
 	var skippedActiveVersion bool
 	var skippedSelectedVersion bool
 	var skippedStableVersion bool
@@ -457,9 +458,17 @@ boundarySearch:
 		case !skippedStableVersion:
 			// Skip versions until the stable version.
 		default:
-			// All required version skipped, set purge boundary.
-			purgeBoundary = i + keepExtra
-			break boundarySearch
+			// All required version skipped, keep the extra versions and set the
+			// purge boundary behind them. Only versions that are actually
+			// available count as kept.
+			if keptExtra >= keepExtra {
+				purgeBoundary = i
+				break boundarySearch
+			}
+			if rv.Available {
+				keptExtra++
+			}
+			continue boundarySearch
 		}
 
 		// Check if current instance is a required version.
@@ -475,7 +484,7 @@ boundarySearch:
 	}
 
 	// Check if there is anything to purge at all.
-	if purgeBoundary <= keepExtra || purgeBoundary >= len(res.Versions) {
+	if purgeBoundary >= len(res.Versions) {
 		return
 	}
 
